@@ -142,6 +142,20 @@ func (im *impl) do(op, arg string) (string, error) {
 			return s
 		})
 		return "", nil
+	case "acceptwait":
+		// net/rpc: Accept synchronously and report the outcome; the accepted
+		// connection is served in the background
+		id64, _ := strconv.ParseUint(arg, 10, 32)
+		id := uint32(id64)
+		if im.mux == nil {
+			return "", errors.New("acceptwait: net/rpc only")
+		}
+		conn, err := im.mux.Accept(id)
+		if err != nil {
+			return "", err
+		}
+		go ServeEcho(conn, id)
+		return "ok", nil
 	case "acceptsync":
 		// like accept but returns only once the listener exists (gRPC) — the
 		// documented sequential establishment needs this
